@@ -69,11 +69,69 @@ Proof. exact equiv_reuse_refuted. Qed.
 Print Assumptions C19_equiv_reuse_refuted.
 
 (* hence, for ANY semantics of the C++ machinery whose results have the types the forwarders' wrappers are applied to, both
-   interfaces show the caller the same verdict, failure text, returned values (tag and payload, defaulting included) and output bytes *)
+   interfaces show the caller the same verdict, failure text, number of runs of the crash hook, returned values (tag and payload,
+   defaulting included) and output bytes *)
 Theorem C19_equiv_obs : forall (M : machine), (forall st k x, fits (wrap_of x) (r_val (snd (mexec M st k x))) = true) ->
   forall ops, spec ops (run_with M ops) = true.
 Proof. exact equiv_obs. Qed.
 Print Assumptions C19_equiv_obs.
+
+(* ---- how the test is left on a failure: crashOnFailure and the failure reporters (the extended observation: h_crash) *)
+(* the source says what the reporter model assumes: the C reporter is the C++ reporter but for the terminator it leaves the test with,
+   both run UT_CRASH() iff the flag failTest hands over is set; MockSupport assigns activeReporter_ only in setActiveReporter (from
+   mock()), reads it in crashOnFailure, createActualCall and failTest (after clear()); clear() mentions no reporter *)
+Theorem C19_reporter_source : reporters_ok = true.
+Proof. exact reporters_checked. Qed.
+Print Assumptions C19_reporter_source.
+
+(* the two interfaces differ in the reporter they select a support with, and in nothing else *)
+Theorem C19_layers_mirror : mirror c_layer x_layer.
+Proof. exact layers_mirror. Qed.
+Print Assumptions C19_layers_mirror.
+
+(* for ANY two layers that do the same up to the names of the two reporter objects and any machine (which also says WHO raises each
+   failure: an actual call object, the mock support itself, a plain CHECK), both interfaces leave the test at the same op with the
+   same text and the same number of runs of the crash hook, and show the same values and output bytes *)
+Theorem C19_equiv_obs_mirror_layers : forall Lc Lx, mirror Lc Lx -> forall (M : machine),
+  (forall st k x, fits (wrap_of x) (r_val (snd (mexec M st k x))) = true) -> forall ops, spec ops (run_layers Lc Lx M ops) = true.
+Proof. exact equiv_obs_layers. Qed.
+Print Assumptions C19_equiv_obs_mirror_layers.
+
+Theorem C19_crash_equiv : forall (M : machine), (forall st k x, fits (wrap_of x) (r_val (snd (mexec M st k x))) = true) -> forall ops,
+  h_fail (o_c (run_with M ops)) = h_fail (o_x (run_with M ops)) /\ h_crash (o_c (run_with M ops)) = h_crash (o_x (run_with M ops)).
+Proof. exact crash_equiv. Qed.
+Print Assumptions C19_crash_equiv.
+
+(* invariant over all op lists: whatever a scenario does (selections, crashOnFailure, calls, clear, in any order and scopes), through C
+   every mock support and every actual call that exists reports through failureReporterForC, through C++ through the standard reporter *)
+Theorem C19_reporter_uniform : forall ops k,
+  uniform RepC (rs_run c_layer rstate0 k (c_trace ops)) /\ uniform RepStd (rs_run x_layer rstate0 k (x_trace ops)).
+Proof. exact reporter_uniform. Qed.
+Print Assumptions C19_reporter_uniform.
+
+(* ... hence, when an operation fails, the crash hook runs at most once, only if the flag of THE reporter of the interface is set, and
+   then whoever raises the failure: a support that exists (checkExpectations: calls that did not happen / out of order; after the
+   clear() inside failTest) or a call that exists or is deleted by this very operation *)
+Theorem C19_crash_iff_flag : forall G L, keeps G L -> forall s s' x, uniform G s -> uniform G s' ->
+  (forall b, crash_on L s s' x b = 0%N \/ (crash_on L s s' x b = 1%N /\ flag s' G = true))
+  /\ (flag s' G = true -> forall sc, receiver x = Some sc -> rs_get s' sc <> None -> crash_on L s s' x BySupport = 1%N)
+  /\ (flag s' G = true -> forall c, In c (rs_calls s' ++ rs_calls s) -> crash_on L s s' x (ByCall (c_id c)) = 1%N).
+Proof. exact crash_iff_flag. Qed.
+Print Assumptions C19_crash_iff_flag.
+
+(* changed code is another layer; three ways of losing the C reporter do not have the property:
+   clear() resetting activeReporter_ to the standard reporter (witness: crashOnFailure(1); expectOneCall; checkExpectations),
+   mock_scope_c passing no reporter (witness: mock_c()->crashOnFailure(1); mock_scope_c("s")->actualCall("g")),
+   createActualCall handing the standard reporter to the call (witness: crashOnFailure(1); actualCall("g")) *)
+Theorem C19_crash_clear_resets_refuted : ~ layer_equiv_stmt clear_resets_layer.
+Proof. exact clear_resets_refuted. Qed.
+Print Assumptions C19_crash_clear_resets_refuted.
+Theorem C19_crash_scope_null_refuted : ~ layer_equiv_stmt scope_null_layer.
+Proof. exact scope_null_refuted. Qed.
+Print Assumptions C19_crash_scope_null_refuted.
+Theorem C19_crash_call_standard_refuted : ~ layer_equiv_stmt call_standard_layer.
+Proof. exact call_standard_refuted. Qed.
+Print Assumptions C19_crash_call_standard_refuted.
 
 Theorem C19_run_meets_spec : forall s, valid s = true -> spec s (run s) = true.
 Proof. exact run_meets_spec. Qed.
